@@ -691,5 +691,6 @@ func driveC16(o opts) error {
 	if err := c16Leader(o, g, w); err != nil {
 		return err
 	}
+	w.Extra["fact_obligations"] = []interface{}{c16TrafficFact(o)}
 	return w.Flush()
 }
